@@ -1960,7 +1960,6 @@ func (n *choice) Validate(ctx ValidateCtx, path []string, p []string) error {
 	if !ok {
 		return NewInvalidPathError(path)
 	}
-	path = append(path, p[0])
 	return c.Validate(ctx, path, p[1:])
 }
 
@@ -2031,6 +2030,5 @@ func (n *ycase) Validate(ctx ValidateCtx, path []string, p []string) error {
 	if !ok {
 		return NewInvalidPathError(path)
 	}
-	path = append(path, p[0])
 	return c.Validate(ctx, path, p[1:])
 }
